@@ -60,13 +60,14 @@ def StaticHyps (S : EinsumS) (env : String → Pts) (sps : List SplitSpec) (L1 :
   let A : Cfg := ⟨S.loop.zip S.exts, outc, S.terms, env, σ0⟩
   let B := applySplits sps A
   let S1 := partEinsum S B L1
-  SplitsOK sps A ∧ (∀ sp ∈ sps, sp.K ∉ outc) ∧ B.R.Perm (S1.loop.zip S1.exts) ∧ (B.R.map (·.1)).Nodup ∧ σ0.length = outc.length
+  SplitsOK sps A ∧ (∀ sp ∈ sps, sp.K ∉ outc) ∧ B.R.Perm (S1.loop.zip S1.exts) ∧ (B.R.map (·.1)).Nodup ∧ σ0.length = outc.length ∧
+  (∀ r ∈ S.outRanks, r ∈ L1)
 
 instance (S : EinsumS) (env : String → Pts) (sps : List SplitSpec) (L1 : List String) (σ0 : List Nat) :
     Decidable (StaticHyps S env sps L1 σ0) := by unfold StaticHyps; infer_instance
 
-/-- static splits of ranks that are not output ranks: the statically split Einsum (loop order `L1`) means what the
-    original one means -/
+/-- static splits of ranks that are not output ranks (every output rank is still a loop rank of `L1`, so
+    `concord L1 S.outRanks` is the output's rank list in loop order): the statically split Einsum means what the original one means -/
 theorem static_meaning (S : EinsumS) (env : String → Pts) (sps : List SplitSpec) (L1 : List String)
     (σ0 : List Nat) (h : StaticHyps S env sps L1 σ0) (τ : List Nat) (hτ : τ.length = σ0.length) :
     let B := applySplits sps ⟨S.loop.zip S.exts, concord L1 S.outRanks, S.terms, env, σ0⟩
@@ -74,7 +75,7 @@ theorem static_meaning (S : EinsumS) (env : String → Pts) (sps : List SplitSpe
     meaning (S1.loop.zip S1.exts) (concord S1.loop S1.outRanks) S1.terms B.env τ =
       meaning (S.loop.zip S.exts) (concord L1 S.outRanks) S.terms env τ := by
   intro B S1
-  obtain ⟨hsp, hKs, hperm, hndR, hl0⟩ := h
+  obtain ⟨hsp, hKs, hperm, hndR, hl0, _⟩ := h
   let outc := concord L1 S.outRanks
   let A : Cfg := ⟨S.loop.zip S.exts, outc, S.terms, env, σ0⟩
   let Aτ : Cfg := { A with τ := τ }
